@@ -94,6 +94,7 @@ def fit_cases(draw, formats2=('v1', 'v1', 'v2wav'), formats3=('v1', 'v1', 'v2wav
         c['selector'] = draw(st.sampled_from([['N', 4], ['N', 1], ['F', 3.3], ['N', 40]]))
     c['output_convolved'] = draw(st.booleans())
     c['av_range'] = c['av_ranges'][0]
+    c['file_tail'] = draw(st.sampled_from(['newline', 'newline', 'no_newline', 'blank_lines']))
     return c
 
 
@@ -128,6 +129,12 @@ def run_fit(case, d, mdir, dr, output):
     data = os.path.join(d, 'data.txt')
     lines = [pkgio.source_line(s['name'], s['x'], s['y'], s['flags'], s['flux'], s['err']) for s in case['lines']]
     pkgio.write_data_file(data, lines)
+    tail = case.get('file_tail', 'newline')
+    if tail != 'newline':
+        # how the data file ends: without a final newline, or with blank / whitespace-only lines after the last source
+        with open(data, 'w') as f:
+            f.write('\n'.join(l.rstrip('\n') for l in lines))
+            f.write({'no_newline': '', 'blank_lines': '\n\n   \n'}[tail])
     with must_succeed('fit()'), quiet():
         fit(data, fnames, aps, mdir, output, n_data_min=case['n_data_min'], extinction_law=law,
             av_range=list(case['av_range']), distance_range=dr, output_format=tuple(case['selector']),
@@ -141,6 +148,7 @@ def run_fitfile(case, ctx):
     from sedfitter.source import Source
     labels = {'mode_' + case['mode'], 'format_' + case['format'], 'sel_' + case['selector'][0], 'big_grid' if case.get('big_grid') else 'small_grid',
               'convolved' if case['output_convolved'] else 'no_convolved', 'n_data_min=%d' % case['n_data_min']}
+    labels.add('data_file_ends_with_' + case.get('file_tail', 'newline'))
     if len(set(s['name'] for s in case['lines'])) < len(case['lines']):
         labels.add('lines_sharing_a_name')
     with ctx.tempdir() as d:
